@@ -752,8 +752,11 @@ int tls13_server_hello_extensions_get(const uint8_t *exts, size_t extslen, SM2_Z
 		const uint8_t *ext_data;
 		size_t ext_datalen;
 
-		tls_uint16_from_bytes(&ext_type, &exts, &extslen);
-		tls_uint16array_from_bytes(&ext_data, &ext_datalen, &exts, &extslen);
+		if (tls_uint16_from_bytes(&ext_type, &exts, &extslen) != 1
+			|| tls_uint16array_from_bytes(&ext_data, &ext_datalen, &exts, &extslen) != 1) {
+			error_print();
+			return -1;
+		}
 
 		switch (ext_type) {
 		case TLS_extension_supported_versions:
